@@ -879,8 +879,10 @@ func c19TimeoutArmedOnce(c *Ctx, rule string, run *ssa.Function) {
 		}
 		return out
 	}
+	// (the arming call may sit in a literal of Run or in a helper / method of the package that Run reaches)
+	scope := pkgClosure(run)
 	isTimeout := func(v ssa.Value) bool {
-		for _, d := range deepDefs(v, ssau.WithAnon(run)) {
+		for _, d := range deepDefs(v, scope) {
 			if ld, ok := d.(*ssa.UnOp); ok {
 				if _, fld, _, isF := ssau.FieldOf(ld.X); isF && strings.Contains(fld, "Timeout") {
 					return true
@@ -894,8 +896,97 @@ func c19TimeoutArmedOnce(c *Ctx, rule string, run *ssa.Function) {
 		}
 		return false
 	}
+	// closureUses: the calls (call, go, defer) of a function value made by mc, directly or through a local variable
+	closureUses := func(mc *ssa.MakeClosure) []ssa.Instruction {
+		uses := append([]ssa.Instruction{}, ssau.Referrers(mc)...)
+		// a literal kept in a variable: the loads of that variable
+		for _, r := range ssau.Referrers(mc) {
+			if st, isSt := r.(*ssa.Store); isSt && st.Val == ssa.Value(mc) {
+				if al, isAl := st.Addr.(*ssa.Alloc); isAl {
+					for _, r2 := range ssau.Referrers(al) {
+						if ld, isLd := r2.(*ssa.UnOp); isLd {
+							uses = append(uses, ssau.Referrers(ld)...)
+						}
+					}
+				}
+			}
+		}
+		var out []ssa.Instruction
+		for _, u := range uses {
+			switch u.(type) {
+			case *ssa.Call, *ssa.Go, *ssa.Defer:
+				out = append(out, u)
+			}
+		}
+		return out
+	}
+	// sitesInRun: the instructions of Run through which the instruction is executed (the instruction itself, the
+	// call of the literal or helper it sits in, ...); why is set when that cannot be told or a loop lies on the way.
+	var sitesInRun func(in ssa.Instruction, depth int) (sites []ssa.Instruction, why string)
+	sitesInRun = func(in ssa.Instruction, depth int) ([]ssa.Instruction, string) {
+		g := in.Parent()
+		if g == run {
+			return []ssa.Instruction{in}, ""
+		}
+		if depth > 6 {
+			return nil, "the arming call is too many calls away from Run"
+		}
+		if flow.InCycle(in.Block()) {
+			if g.Parent() != nil {
+				return nil, "the arming call is inside a loop of the literal it sits in"
+			}
+			return nil, "armed from inside a loop (" + c.pos(in) + ")"
+		}
+		var next []ssa.Instruction
+		if g.Parent() != nil {
+			// every use of the literal g in its parent
+			ssau.Instrs(g.Parent(), func(in2 ssa.Instruction) {
+				if mc, isMC := in2.(*ssa.MakeClosure); isMC && mc.Fn == ssa.Value(g) {
+					next = append(next, closureUses(mc)...)
+				}
+			})
+			if len(next) == 0 {
+				return nil, "the literal that arms the timeout is handed on as a value (its calls are not visible)"
+			}
+		} else {
+			for _, s := range callSitesOf(g, scope) {
+				next = append(next, s)
+			}
+			// the method used as a method value
+			for _, f := range scope {
+				ssau.Instrs(f, func(in2 ssa.Instruction) {
+					mc, isMC := in2.(*ssa.MakeClosure)
+					if !isMC {
+						return
+					}
+					if w, isF := mc.Fn.(*ssa.Function); isF && w.Synthetic != "" && w.Name() == g.Name()+"$bound" && len(callSitesOf(g, []*ssa.Function{w})) > 0 {
+						us := closureUses(mc)
+						if len(us) == 0 {
+							us = []ssa.Instruction{nil}
+						}
+						next = append(next, us...)
+					}
+				})
+			}
+			if len(next) == 0 {
+				return nil, "the arming call is in a function that Run does not call"
+			}
+		}
+		var out []ssa.Instruction
+		for _, s := range next {
+			if s == nil {
+				return nil, "the function that arms the timeout is handed on as a value (its calls are not visible)"
+			}
+			ss, why := sitesInRun(s, depth+1)
+			if why != "" {
+				return nil, why
+			}
+			out = append(out, ss...)
+		}
+		return out, ""
+	}
 	n := 0
-	for _, f := range ssau.WithAnon(run) {
+	for _, f := range scope {
 		ssau.Instrs(f, func(in ssa.Instruction) {
 			cl, ok := in.(*ssa.Call)
 			if !ok {
@@ -914,59 +1005,10 @@ func c19TimeoutArmedOnce(c *Ctx, rule string, run *ssa.Function) {
 				return
 			}
 			n++
-			why := ""
-			// where is it executed: in Run itself, or through the literal(s) it sits in
-			sites := []ssa.Instruction{in}
-			for g := f; g != run && why == ""; g = g.Parent() {
-				var next []ssa.Instruction
-				if g.Parent() == nil {
-					why = "the arming call is in a function that is not a literal of Run"
-					break
-				}
-				// every use of the literal g in its parent
-				ssau.Instrs(g.Parent(), func(in2 ssa.Instruction) {
-					mc, isMC := in2.(*ssa.MakeClosure)
-					if !isMC || mc.Fn != ssa.Value(g) {
-						return
-					}
-					uses := append([]ssa.Instruction{}, ssau.Referrers(mc)...)
-					// a literal kept in a variable: the loads of that variable
-					for _, r := range ssau.Referrers(mc) {
-						if st, isSt := r.(*ssa.Store); isSt && st.Val == ssa.Value(mc) {
-							if al, isAl := st.Addr.(*ssa.Alloc); isAl {
-								for _, r2 := range ssau.Referrers(al) {
-									if ld, isLd := r2.(*ssa.UnOp); isLd {
-										uses = append(uses, ssau.Referrers(ld)...)
-									}
-								}
-							}
-						}
-					}
-					for _, u := range uses {
-						switch u.(type) {
-						case *ssa.Call, *ssa.Go, *ssa.Defer:
-							next = append(next, u)
-						}
-					}
-					// the literal sits in a loop itself and arms when called from its own body
-					if flow.InCycle(sites[0].Block()) {
-						why = "the arming call is inside a loop of the literal it sits in"
-					}
-				})
-				sites = next
-				if len(sites) == 0 && why == "" {
-					why = "the literal that arms the timeout is handed on as a value (its calls are not visible)"
-				}
-			}
+			// where is it executed: in Run itself, or through the literal(s) / helper(s) it sits in
+			sites, why := sitesInRun(in, 0)
 			if why == "" {
 				for _, s := range sites {
-					if s.Parent() != run {
-						// called from another literal of Run: judged where that literal runs (one level is what this code base uses)
-						if flow.InCycle(s.Block()) {
-							why = "armed from inside a loop (" + c.pos(s) + ")"
-						}
-						continue
-					}
 					L := flow.InnermostLoop(loops, s.Block())
 					if L != nil && L != outermost(s.Block()) {
 						why = "armed on every pass of a loop inside the step (" + c.pos(s) + "): the deadline moves each time the loop goes round"
